@@ -744,6 +744,14 @@ def r2_10(ctx, rc):
                     'rollback' % cell, rsites[0].where(), key=key)
 
 
+def r2_11(ctx, rc):
+    """Rollback removes the directories the build created: each of them
+    has an owner even when two threads created/reserved it concurrently
+    (R9.6)."""
+    from .c09 import r9_6
+    r9_6(ctx, rc)
+
+
 RULES = [
     ('R2.1', 'every effect before commit is inside the rollback scope', r2_1),
     ('R2.2', 'user exceptions propagate by bare raise only', r2_2),
@@ -756,4 +764,5 @@ RULES = [
     ('R2.8', 'rollback undo sets are complete', r2_8),
     ('R2.9', 'a failed cache write is compensated', r2_9),
     ('R2.10', 'coverage matrix backup guard x removal guard', r2_10),
+    ('R2.11', 'a concurrently created directory keeps an owner', r2_11),
 ]
